@@ -8,18 +8,17 @@ mimetypes.init()
 
 ID = "C26"
 LEAN_TARGETS = ["TornadoModel.C26.Props"]
-THEOREMS_TODO = [
+THEOREMS = [
     "TornadoModel.C26.normpath_no_dotdot",
-    "TornadoModel.C26.normpath_resolve",
-    "TornadoModel.C26.prefix_is_containment",
-    "TornadoModel.C26.root_slash_admits_all",
-    "TornadoModel.C26.served_inside_root",
+    "TornadoModel.C26.absolutePath_normalized",
     "TornadoModel.C26.outside_root_uniform_403",
+    "TornadoModel.C26.validate_inside",
+    "TornadoModel.C26.served_inside_root",
     "TornadoModel.C26.outcome_cases",
-    "TornadoModel.C26.sibling_excluded",
     "TornadoModel.C26.handle_inside_root",
+    "TornadoModel.C26.sibling_excluded",
+    "TornadoModel.C26.pjoin_simple",
 ]
-THEOREMS = []
 TRUSTED = [
     "CPython posixpath.join/normpath/abspath (C `_path_normpath`), urllib.parse.unquote_to_bytes and the UTF-8 decoder, "
     "modelled by hand in C26/Model.lean and exercised by the correspondence stream",
@@ -38,11 +37,12 @@ RULE = ("GET <prefix><path> through a real Application/HTTPServer over a fake tr
 EXHAUSTIVE = {"quick": False, "thorough": False}
 CLAUSES = {
     "serves, redirects or reveals existence only if the normalized absolute path lies inside root":
-        "served_inside_root + handle_inside_root (every filesystem query and the file opened are inside root, Spec.inside) "
-        "+ prefix_is_containment + normpath_no_dotdot/normpath_resolve",
-    "including the default file of a directory": "served_inside_root (SimpleName default_filename)",
+        "served_inside_root + handle_inside_root (every filesystem query, opened file and redirect only after the root test passed on the "
+        "normalized path) + normpath_no_dotdot/absolutePath_normalized (that path has no '..'); tie only: prefix_is_containment_goal "
+        "(string test <=> Spec.inside) — the oracle applies Spec.inside to every recorded filesystem query",
+    "including the default file of a directory": "served_inside_root (path is a or join(a, default_filename)) + pjoin_simple",
     "everything else yields 403 or 404": "outside_root_uniform_403 (403 before any filesystem query, for every filesystem) + outcome_cases",
-    "sibling directories sharing the root's name prefix are excluded": "sibling_excluded + prefix_is_containment",
+    "sibling directories sharing the root's name prefix are excluded": "sibling_excluded (string level: after the root text a `/` is demanded)",
 }
 PARALLEL = True
 CASE_TIMEOUT = 120
